@@ -1,4 +1,27 @@
 //! mc-lottery: serves C08 (see /verif/DESIGN.md §4)
+//!
+//! `is_lottery_won` is `pub(crate)` in mithril-stm, so the working-tree file that defines it is
+//! compiled into this crate by *source inclusion* (DESIGN.md §1, "access to crate-private code").
+//! The shim below supplies the only `crate::` names and macros that file uses; it selects the
+//! default (num-integer) back end, the one mithril-stm is built with here (the rug back end
+//! cannot be built offline).
+
+/// shim for `use crate::{PhiFValue, Stake}` in eligibility.rs (same definitions as mithril-stm/src/lib.rs)
+pub type Stake = u64;
+pub type PhiFValue = f64;
+
+/// shim for mithril-stm/src/proof_system/mod.rs: the num-integer back end is the one compiled
+macro_rules! cfg_num_integer {
+    ($($item:item)*) => { $( $item )* };
+}
+macro_rules! cfg_rug {
+    ($($item:item)*) => {};
+}
+
+#[allow(dead_code, unused_imports)]
+#[path = "/repo/mithril-stm/src/proof_system/concatenation/eligibility.rs"]
+mod eligibility;
+
 mod c08;
 
 fn main() {
